@@ -1166,6 +1166,13 @@ func (s *alphSim) reobserve(st simkit.Step) {
 		s.release(p)
 	}
 	synctest.Wait()
+	// a request the watcher did not pick up now (it is restarting) is withdrawn, otherwise it would
+	// be handled later, outside the phase that attributes hand-offs to the re-observation path
+	select {
+	case <-s.obsvReqC:
+		s.stats.Probe("reobservation-request-withdrawn")
+	default:
+	}
 	s.mu.Lock()
 	s.reobsPhase = false
 	s.mu.Unlock()
